@@ -169,7 +169,7 @@ def build_and_run(run, projects, tag="", timeout=3000, expect_fail=False):
         else:
             try:
                 q = subprocess.run([exe], stdout=subprocess.PIPE, stderr=subprocess.PIPE, text=True, errors="replace", timeout=600)
-                for line in q.stdout.splitlines():
+                for line in q.stdout.split("\n"):
                     line = line.strip()
                     if line.startswith("{"):
                         try:
